@@ -172,11 +172,18 @@ fn nworkers() -> usize {
 
 pub fn run(prop: &str, tier: Tier) -> i32 {
     let t0 = Instant::now();
-    let defs = registry::scenarios(prop, tier);
-    let cfgs = registry::seq_configs(prop, tier);
-    if defs.is_empty() && cfgs.is_empty() {
+    let mut defs = registry::scenarios(prop, tier);
+    let mut cfgs = registry::seq_configs(prop, tier);
+    // maintenance: VH_ONLY=<substring> restricts the run to matching scenarios / configurations
+    if let Ok(only) = std::env::var("VH_ONLY") { defs.retain(|d| d.id().contains(&only)); cfgs.retain(|c| c.name.contains(&only)); }
+    if defs.is_empty() && cfgs.is_empty() && prop != "C15" {
         println!("ENGINE-ERROR: property={prop} has no scenarios registered");
         return 2;
+    }
+    if prop == "C15" {
+        let mut rep = empty_report(prop, tier, t0);
+        crate::c15::run(tier, &mut rep);
+        return finish(rep);
     }
     let mut rep = if !defs.is_empty() { run_e1(prop, tier, defs, t0) } else { empty_report(prop, tier, t0) };
     if !cfgs.is_empty() {
@@ -429,6 +436,7 @@ pub fn replay(path: &str) -> i32 {
     match v["engine"].as_str() {
         Some("mcx") => replay_mcx(&v),
         Some("seqx") => replay_seqx(&v),
+        Some("c15") => crate::c15::replay(&v, path),
         other => { eprintln!("unknown engine {:?}", other); 2 }
     }
 }
